@@ -834,7 +834,8 @@ def b18_first_complete_matching_ends_the_backtracking(ctx) -> None:
             raise AnalysisError("B18: the matching is no longer recorded inside the backtracking loop")
         blk = C.block_path(f, st)[-1][2]
         i = [j for j, x in enumerate(blk) if x is st][0]
-        nxt = blk[i + 1] if i + 1 < len(blk) else None
+        rest = [x for x in blk[i + 1:] if not isinstance(x, ast.Pass) and not (isinstance(x, ast.Expr) and isinstance(x.value, ast.Constant))]
+        nxt = rest[0] if rest else None
         if isinstance(nxt, ast.Break) or isinstance(nxt, ast.Return):
             ctx.ok("B18", "the backtracking over the children stops at the first complete matching of a rule pair")
         else:
